@@ -248,6 +248,66 @@ var lifeFixed = [][]lifeOp{
 	{{"start", "20ms"}, {"stop", "1ms"}, {"start", "20ms"}, {"stop", "0"}, {"start", "20ms"}, {"stop", "0"}},
 }
 
+// worker-pool mode: all workers busy with jobs that end only at shutdown, one more fire time due (the loop
+// is blocked handing it over), then Stop or cancellation: Wait must return and nothing may be left behind.
+type poolStopResult struct {
+	Kind     string `json:"kind"`
+	Round    int    `json:"round"`
+	Variant  string `json:"variant"` // stop | cancel
+	Limit    int    `json:"limit"`
+	Started  int64  `json:"started"`
+	WaitOK   bool   `json:"wait_returned"`
+	Leaked   int    `json:"leaked_goroutines"`
+	Sample   string `json:"leak_sample,omitempty"`
+	SawDone  int64  `json:"saw_done"`
+}
+
+func runPoolStop(round int, variant string, limit int) poolStopResult {
+	res := poolStopResult{Kind: "poolstop", Round: round, Variant: variant, Limit: limit}
+	s, _ := quartz.NewStdScheduler(quartz.WithWorkerLimit(limit), quartz.WithOutdatedThreshold(time.Minute))
+	var started, sawDone atomic.Int64
+	for i := 0; i < limit+2; i++ {
+		name := "ps" + string(rune('a'+i))
+		s.ScheduleJob(detail(name, func(ctx context.Context) error {
+			started.Add(1)
+			<-ctx.Done()
+			sawDone.Add(1)
+			return nil
+		}), quartz.NewRunOnceTrigger(time.Millisecond))
+	}
+	ctx, cancel := context.WithCancel(context.Background())
+	defer cancel()
+	s.Start(ctx)
+	pollUntil(5*time.Second, func() bool { return started.Load() >= int64(limit) })
+	time.Sleep(60 * time.Millisecond) // the loop is now blocked handing the next job over
+	res.Started = started.Load()
+	if variant == "cancel" {
+		cancel()
+	} else {
+		s.Stop()
+	}
+	wctx, wc := context.WithTimeout(context.Background(), 6*time.Second)
+	s.Wait(wctx)
+	res.WaitOK = wctx.Err() == nil
+	wc()
+	pollUntil(2*time.Second, func() bool { n, _ := quartzGoroutines(); return n == 0 })
+	res.Leaked, res.Sample = quartzGoroutines()
+	if res.Leaked == 0 {
+		res.Sample = ""
+	}
+	res.SawDone = sawDone.Load()
+	cancel()
+	// do not leave a blocked loop of a broken scheduler behind for the next round's profile
+	if res.Leaked > 0 {
+		go func() {
+			for i := 0; i < 50; i++ {
+				time.Sleep(20 * time.Millisecond)
+			}
+		}()
+	}
+	return res
+}
+
 func cmdLife() {
 	seed := argInt(2, 1)
 	n := argInt(3, 40)
@@ -269,5 +329,15 @@ func cmdLife() {
 	}
 	for i := 0; i < n; i++ {
 		run(nil)
+	}
+	if only < 0 && shard == shards-1 {
+		base, _ := quartzGoroutines()
+		for r := 0; r < 8 && base == 0; r++ {
+			pr := runPoolStop(r, []string{"stop", "cancel"}[r%2], 1+r%3)
+			emit(pr)
+			if pr.Leaked > 0 || !pr.WaitOK {
+				break // a stuck goroutine would be counted again in every later round
+			}
+		}
 	}
 }
